@@ -188,6 +188,9 @@ func runC14(c *Ctx, r *Rec) {
 					return "calls the mutating method " + cl
 				}
 			}
+			if n == 0 {
+				return "skip: no direct call of RemoveValue (it may be handed to a helper as a method value)"
+			}
 			if n != 1 {
 				return fmt.Sprintf("%d call sites of RemoveValue, required one (inside the key loop)", n)
 			}
@@ -196,6 +199,45 @@ func runC14(c *Ctx, r *Rec) {
 		"RemoveAll": func(fd *ast.FuncDecl, e mapEffects) string {
 			if len(e.writes) > 0 {
 				return "RemoveAll writes entries"
+			}
+			// a counting loop that deletes entries must not be bounded by the live size of the map
+			recv := recvObj(info, fd)
+			shrinking := ""
+			for _, l := range loopsIn(fd.Body) {
+				fs, ok := l.(*ast.ForStmt)
+				if !ok || fs.Cond == nil {
+					continue
+				}
+				deletes := false
+				inspectNoLit(fs.Body, func(x ast.Node) bool {
+					if call, ok := x.(*ast.CallExpr); ok {
+						if isBuiltinCall(info, call, "delete") && len(call.Args) == 2 && isObj(info, call.Args[0], recv) {
+							deletes = true
+						}
+						if rx, mname, _, ok := methodCall(call); ok && isObj(info, rx, recv) && (mname == "RemoveValue" || mname == "RemoveValues") {
+							deletes = true
+						}
+					}
+					return true
+				})
+				live := false
+				ast.Inspect(fs.Cond, func(x ast.Node) bool {
+					if call, ok := x.(*ast.CallExpr); ok {
+						if isBuiltinCall(info, call, "len") && len(call.Args) == 1 && isObj(info, call.Args[0], recv) {
+							live = true
+						}
+						if rx, mname, _, ok := methodCall(call); ok && isObj(info, rx, recv) && mname == "GetSize" {
+							live = true
+						}
+					}
+					return true
+				})
+				if deletes && live {
+					shrinking = "the loop that deletes the entries is bounded by the map's current size, which shrinks with every delete: it stops half way and about half of the associations survive RemoveAll"
+				}
+			}
+			if shrinking != "" {
+				return shrinking
 			}
 			if e.clears == 0 && len(e.deletes) == 0 {
 				for _, cl := range e.calls {
@@ -223,7 +265,7 @@ func runC14(c *Ctx, r *Rec) {
 		}
 		e := effectsOf(fd)
 		bad := table[name](fd, e)
-		r.check(bad == "", "D1-effect-signature", construct, c.pos(fd.Pos()),
+		r.verdict("D1-effect-signature", construct, c.pos(fd.Pos()),
 			fmt.Sprintf("effects: reads %v writes %v deletes %v clears %d calls %v", e.reads, e.writes, e.deletes, e.clears, e.calls), bad)
 	}
 	// methods outside the table must not mutate
@@ -342,7 +384,31 @@ func runC14(c *Ctx, r *Rec) {
 				return true
 			})
 			if !okMake {
-				bad = "the association placed in the view is not built from the ranged key and value of the same entry"
+				// a private helper that receives the ranged key and value builds the association
+				inspectNoLit(rs.Body, func(x ast.Node) bool {
+					if call, ok := x.(*ast.CallExpr); ok && len(call.Args) == 2 && kObj != nil && vObj != nil &&
+						isObj(info, call.Args[0], kObj) && isObj(info, call.Args[1], vObj) {
+						if cf := calleeOf(info, call); cf != nil && !cf.Exported() && c.declOf(cf) != nil {
+							okMake = true
+						}
+					}
+					return true
+				})
+			}
+			if !okMake {
+				// evidence: an association is made from something else than (ranged key, ranged value)
+				wrong := false
+				inspectNoLit(rs.Body, func(x ast.Node) bool {
+					if _, mname, call, ok := methodCall(x); ok && mname == "Make" && len(call.Args) == 2 {
+						wrong = true
+					}
+					return true
+				})
+				if wrong {
+					bad = "the association placed in the view is not built from the ranged key and value of the same entry"
+				} else {
+					bad = "skip: no Association.Make(key, value) found in the loop over the map"
+				}
 			}
 		}
 		r.verdict("D3-views", c.fdName(fd), c.pos(fd.Pos()), "each element is Association.Make(key, value) of the ranged entry", bad)
@@ -442,6 +508,60 @@ func resolveInit(info *types.Info, fd *ast.FuncDecl, e ast.Expr) ast.Expr {
 // returnsReadOf: every return of fd returns a value that was read from recv[key].
 func returnsReadOf(info *types.Info, fd *ast.FuncDecl, key string) string {
 	recv := recvObj(info, fd)
+	isRead := func(e ast.Expr) bool {
+		ix, ok := ast.Unparen(e).(*ast.IndexExpr)
+		return ok && isObj(info, ix.X, recv) && exprStr(ix.Index) == key
+	}
+	// variables that hold the value read from recv[key], directly or through plain copies
+	readVars := map[types.Object]bool{}
+	otherDefs := map[types.Object]bool{} // variables that (also) receive something else
+	for changed := true; changed; {
+		changed = false
+		ast.Inspect(fd.Body, func(y ast.Node) bool {
+			var lhs []ast.Expr
+			var rhs []ast.Expr
+			switch d := y.(type) {
+			case *ast.AssignStmt:
+				lhs, rhs = d.Lhs, d.Rhs
+			case *ast.ValueSpec:
+				for _, nm := range d.Names {
+					lhs = append(lhs, nm)
+				}
+				rhs = d.Values
+			default:
+				return true
+			}
+			if len(rhs) == 0 {
+				return true
+			}
+			for i, l := range lhs {
+				o := identObj(info, l)
+				if o == nil {
+					continue
+				}
+				var src ast.Expr
+				switch {
+				case len(rhs) == len(lhs):
+					src = rhs[i]
+				case len(rhs) == 1 && i == 0:
+					src = rhs[0] // v, ok := m[k]
+				default:
+					continue
+				}
+				so := identObj(info, ast.Unparen(src))
+				switch {
+				case isRead(src), so != nil && readVars[so]:
+					if !readVars[o] {
+						readVars[o] = true
+						changed = true
+					}
+				default:
+					otherDefs[o] = true
+				}
+			}
+			return true
+		})
+	}
 	bad := ""
 	inspectNoLit(fd.Body, func(x ast.Node) bool {
 		rs, ok := x.(*ast.ReturnStmt)
@@ -449,27 +569,25 @@ func returnsReadOf(info *types.Info, fd *ast.FuncDecl, key string) string {
 			return true
 		}
 		src := ast.Unparen(rs.Results[0])
-		if id, isId := src.(*ast.Ident); isId {
-			// find the definition: value := v[key]  or  value, ok := v[key]
-			obj := info.Uses[id]
-			found := false
-			ast.Inspect(fd.Body, func(y ast.Node) bool {
-				if lhs, rhs, ok := multiDef(y); ok && len(lhs) >= 1 && identObj(info, lhs[0]) == obj {
-					if ix, ok := ast.Unparen(rhs).(*ast.IndexExpr); ok && isObj(info, ix.X, recv) && exprStr(ix.Index) == key {
-						found = true
-					}
+		if isRead(src) {
+			return true
+		}
+		if o := identObj(info, src); o != nil {
+			switch {
+			case readVars[o] && !otherDefs[o]:
+			case readVars[o]:
+				bad = "skip: the variable returned receives the value read from the map under " + key + " and something else"
+			case !otherDefs[o]:
+				// only ever the zero value: fine on the not-found path, wrong if it is the only return
+				if len(readVars) == 0 {
+					bad = "the value returned is not the one read from the map under " + key
 				}
-				return true
-			})
-			if !found {
+			default:
 				bad = "the value returned is not the one read from the map under " + key
 			}
 			return true
 		}
-		if ix, ok := src.(*ast.IndexExpr); ok && isObj(info, ix.X, recv) && exprStr(ix.Index) == key {
-			return true
-		}
-		bad = "the value returned is not the one read from the map under " + key
+		bad = "skip: the value returned is an expression this rule does not follow"
 		return true
 	})
 	return bad
